@@ -3,6 +3,8 @@
 // running hash; per-site counters allow a divergence to be located.
 package trace
 
+import "math/big"
+
 type integer interface {
 	~int | ~int8 | ~int16 | ~int32 | ~int64 | ~uint | ~uint8 | ~uint16 | ~uint32 | ~uint64 | ~uintptr
 }
@@ -45,6 +47,7 @@ func mix(x uint64) {
 
 // Start begins a recording. With detail, per-site summaries are kept so that two recordings can be diffed.
 func Start(withDetail bool) {
+	ext = nil
 	on = true
 	h = 14695981039346656037
 	events = 0
@@ -57,11 +60,82 @@ type Result struct {
 	Hash   uint64
 	Events uint64
 	Sites  map[uint32]uint64
+	Ext    map[uint32][][]string // external call site -> per execution: canonical values of the value-bearing operands
 }
 
 func Stop() Result {
 	on = false
-	return Result{Hash: h, Events: events, Sites: sites}
+	return Result{Hash: h, Events: events, Sites: sites, Ext: ext}
+}
+
+var ext map[uint32][][]string
+
+// X: a call that leaves the module is about to be made at this site; ops are its value-bearing operands (receiver
+// and arguments of type *big.Int, []byte, integers). They are recorded in canonical form - the magnitude as hex without
+// leading zeros, "-" in front of negative numbers - and are NOT part of the trace hash: the monitor decides afterwards
+// whether every operand is a public value. "?" marks an operand the instrumenter could not evaluate without side effects.
+func X(id uint32, ops ...interface{}) {
+	if !on || !detail {
+		return
+	}
+	if ext == nil {
+		ext = map[uint32][][]string{}
+	}
+	if len(ext[id]) >= 64 {
+		return
+	}
+	vals := make([]string, 0, len(ops))
+	for _, o := range ops {
+		vals = append(vals, Canon(o))
+	}
+	ext[id] = append(ext[id], vals)
+}
+
+// Canon is the canonical form used by X.
+func Canon(o interface{}) string {
+	trim := func(b []byte) string {
+		i := 0
+		for i < len(b) && b[i] == 0 {
+			i++
+		}
+		const hexd = "0123456789abcdef"
+		out := make([]byte, 0, 2*(len(b)-i))
+		for _, c := range b[i:] {
+			out = append(out, hexd[c>>4], hexd[c&15])
+		}
+		return string(out)
+	}
+	switch v := o.(type) {
+	case nil:
+		return ""
+	case *big.Int:
+		if v == nil {
+			return ""
+		}
+		if v.Sign() < 0 {
+			return "-" + trim(v.Bytes())
+		}
+		return trim(v.Bytes())
+	case []byte:
+		return trim(v)
+	case string:
+		return v
+	case int:
+		return Canon(big.NewInt(int64(v)))
+	case int64:
+		return Canon(big.NewInt(v))
+	case uint64:
+		return Canon(new(big.Int).SetUint64(v))
+	case uint:
+		return Canon(new(big.Int).SetUint64(uint64(v)))
+	case uint32:
+		return Canon(big.NewInt(int64(v)))
+	case int32:
+		return Canon(big.NewInt(int64(v)))
+	case byte:
+		return Canon(big.NewInt(int64(v)))
+	}
+	return "?"
 }
 
 // B: entry of a basic block (function body, branch arm, loop body, case clause).
